@@ -106,6 +106,9 @@ class FnTrans:
         if q.endswith("*"):
             q = q[:-1].strip(); kind = "out"
             if q in self.job.get("ptr_vals", []): kind = "val"     # pointer to an object read only through job["paths"]
+            if q in self.job.get("opt_ptrs", []):                  # pointer that may be null: Option
+                base0 = {"Point": "Pt"}; base0.update(self.tmap)
+                return "Option " + base0[q], "val"
         base = {"double": "Rat", "int": "Int", "bool": "Bool", "unsigned int": "Nat", "size_t": "Nat",
                 "unsigned long": "Nat", "Point": "Pt", "unsigned": "Nat"}
         base.update({"Polygon": "List Pt", "std::vector<Point>": "List Pt", "PolygonInterface": "List Pt"})
@@ -172,9 +175,17 @@ class FnTrans:
         if k == "MemberExpr":
             b = self.path_of(n["inner"][0])
             return None if b is None else b + "." + n["name"]
-        if k == "CXXMemberCallExpr" and len([c for c in n["inner"] if isinstance(c, dict)]) == 1:
-            b = self.path_of(n["inner"][0])
-            return None if b is None else b + "()"
+        if k == "CXXMemberCallExpr":
+            parts = [c for c in n["inner"] if isinstance(c, dict)]
+            b = self.path_of(parts[0])
+            if b is None: return None
+            args = []
+            for a_ in parts[1:]:
+                while a_.get("kind") in ("ImplicitCastExpr", "ParenExpr"): a_ = a_["inner"][0]
+                if a_.get("kind") == "DeclRefExpr" and a_["referencedDecl"]["kind"] == "EnumConstantDecl":
+                    args.append(a_["referencedDecl"]["name"])
+                else: return None
+            return b + "(" + ",".join(args) + ")"
         return None
 
     def expr(self, n, env):
@@ -213,6 +224,8 @@ class FnTrans:
                     return "(%s : Nat)" % lit["value"], "Nat", p
                 raise Unsupported("%s: integral cast %s -> %s" % (self.name, ty, dst))
             raise Unsupported("%s: cast kind %s" % (self.name, ck))
+        if k == "CXXConstructExpr" and len(inner) == 1:
+            return self.expr(inner[0], env)         # copy construction of a value type
         if k == "IntegerLiteral":
             ty = self.lean_type(n["type"]["qualType"])[0]
             return "(%s : %s)" % (n["value"], ty), ty, None
@@ -258,12 +271,23 @@ class FnTrans:
             if op == "-": return "(-%s)" % t, ty, p
             if op == "+": return t, ty, p
             if op == "!": return "(!%s)" % t, "Bool", p
-            if op == "*":   # deref of out-param pointer (read)
+            if op == "*":   # deref of out-param pointer (read), or of a possibly-null pointer (Option)
+                if ty.startswith("Option "):
+                    return "(%s.getD default)" % t, ty[7:], self.conj(p, "%s.isSome" % t)
                 return t, ty, p
             raise Unsupported("%s: unary %s" % (self.name, op))
         if k == "BinaryOperator":
             op = n["opcode"]
             if op == ",": raise Unsupported("comma operator")
+            if op in ("==", "!="):
+                def is_null(x):
+                    while x.get("kind") in ("ImplicitCastExpr", "ParenExpr"): x = x["inner"][0]
+                    return x.get("kind") == "CXXNullPtrLiteralExpr"
+                for u_, v_ in ((inner[0], inner[1]), (inner[1], inner[0])):
+                    if is_null(v_):
+                        t_, ty_, p_ = self.expr(u_, env)
+                        if not ty_.startswith("Option "): raise Unsupported("%s: nullptr comparison of %s" % (self.name, ty_))
+                        return ("%s.isNone" if op == "==" else "%s.isSome") % t_, "Bool", p_
             a, ta, pa = self.expr(inner[0], env)
             b, tb, pb = self.expr(inner[1], env)
             if op in ("+", "-", "*", "/"):
@@ -378,7 +402,14 @@ class FnTrans:
                 return "(absR %s)" % t, ty, p
             if cname in ("min", "max"):
                 a, ta, pa = self.expr(rawargs[0], env); b, tb, pb = self.expr(rawargs[1], env)
+                if ta != tb: raise Unsupported("%s: %s of %s and %s" % (self.name, cname, ta, tb))
+                if ta in ("Int", "Nat"): return "(%s %s %s)" % (cname, a, b), ta, self.conj(pa, pb)
                 return "(%sR %s %s)" % (cname, a, b), ta, self.conj(pa, pb)
+            if cname in self.job.get("opaque_calls", {}):
+                # a function the model does not interpret (e.g. sqrt-based): an explicit function parameter
+                ln_, rt_ = self.job["opaque_calls"][cname]
+                as_ = [self.expr(x, env) for x in rawargs]
+                return "(%s %s)" % (ln_, " ".join(a_[0] for a_ in as_)), rt_, self.conj(*[a_[2] for a_ in as_])
             if cname == "epsilon":
                 return "dblEpsilon", "Rat", None
             if cname == "isnan":
@@ -484,6 +515,7 @@ class FnTrans:
         if not stmts:
             return cont(env)
         s, rest = stmts[0], stmts[1:]
+        while s.get("kind") == "ExprWithCleanups" and self.is_assert(s) is None: s = s["inner"][0]
         k = s.get("kind")
         nxt = lambda e: self.block(rest, e, cont, ind)
         if k == "CompoundStmt":
